@@ -12,10 +12,12 @@ from ..runner import derive_seed
 ID = "C14"
 LEVEL = "exploration"
 RULE = ("scenario = server history (<=6 frames: text, binary, fragmented, ping, pong) + ending mode {server close frame "
-        "with / without body, end of stream, reset, protocol violation, invalid UTF-8, ping timeout, refused connection, "
+        "with / without body, close frame followed at once by a reset (the reply cannot be written), end of stream, reset, "
+        "protocol violation, invalid UTF-8, ping timeout, ping timeout with the server silent in the middle of a frame, refused connection, "
         "rejected handshake, close() from each callback, close() from a second thread at a virtual time, close() from a "
         "second thread pre-empting the loop thread at its k-th traced line, KeyboardInterrupt raised inside each "
-        "callback}; optional ping thread; then a second run of the same object with its own ending mode.  Oracle per run: "
+        "callback (also: close() from on_message while a ping is unanswered and the server answers the close frame later than "
+        "the ping timeout)}; optional ping thread; then a second run of the same object with its own ending mode.  Oracle per run: "
         "(a) run_forever returns within 30 virtual s after the ending event; (b) on_close called exactly once and it is "
         "the last callback; (c) its arguments are the server close frame's (code, reason) when the server ended the "
         "connection with a close frame that has a body, (None, None) otherwise; (d) return value False for close frame / "
@@ -28,7 +30,7 @@ ASSUMPTIONS = ["callbacks raising ordinary exceptions are C13's subject and not 
                "on_error itself never raises; KeyboardInterrupt inside on_close is not generated",
                "bound B = 30 virtual seconds covers the library's 10 s select period + 3 s close wait + 3 s thread join"]
 MODES = ("close_body", "close_nobody", "eof", "reset", "protocol", "utf8", "ping_timeout", "refused", "rejected",
-         "cb_close", "thread_close", "kbi", "close_badutf8")
+         "cb_close", "thread_close", "kbi", "close_badutf8", "close_reset", "ping_timeout_midframe")
 CB_FOR_MODE = ("on_open", "on_message", "on_data", "on_ping", "on_pong")
 B = 30 * S
 WALL_CAP = {"quick": 600, "thorough": 3300}
@@ -67,7 +69,7 @@ def _history(rng, need=None):
 
 
 def gen_run(rng, allow_async=True):
-    mode = rng.choice(MODES if allow_async else [m for m in MODES if m != "thread_close"])
+    mode = rng.choice(MODES if allow_async else [m for m in MODES if m not in ("thread_close", "ping_timeout_midframe")])
     r = {"mode": mode}
     need = None
     if mode in ("cb_close", "kbi"):
@@ -78,10 +80,24 @@ def gen_run(rng, allow_async=True):
     items, t = _history(rng, need)
     r["history"] = items
     r["end_t"] = t + rng.choice((S // 2, S, 4 * S, 12 * S))
-    if mode == "close_body":
+    if mode in ("close_body", "close_reset"):
         r["code"] = rng.choice((1000, 1001, 1011, 3000, 4999))
         r["reason"] = rng.choice(("", "bye", "grüß"))
-    if mode == "ping_timeout":
+    if mode == "cb_close" and r["cb"] in ("on_message", "on_data") and rng.random() < 0.4:
+        # the application's close() runs while a ping is unanswered and takes longer than the ping timeout (the server
+        # answers the close frame late): the pong reaches close(), not the loop
+        r["interval"], r["ptimeout"] = rng.choice(((2 * S, S // 2), (3 * S, S)))
+        # (the first ping goes out two intervals after the connection opened)
+        r["history"] = [{"t": rng.choice((2, 3)) * r["interval"] + S // 16, "frames": [{"fin": 1, "op": 1, "hex": "6e657773"}]}]
+        r["end_t"] = 3 * r["interval"] + 6 * S
+        r["pong_delay"] = S // 8
+        r["close_reply_delay"] = r["ptimeout"] + rng.choice((S // 4, S))
+        return r
+    if mode == "ping_timeout_midframe":
+        r["interval"], r["ptimeout"] = rng.choice(((2 * S, S), (5 * S, 2 * S), (3 * S, S // 2)))
+        r["pongs_before_silence"] = rng.choice((0, 1, 2))
+        r["partial"] = rng.choice(("81", "8105", "810568", "0102aa", "8a", "8905"))
+    elif mode == "ping_timeout":
         r["interval"], r["ptimeout"] = rng.choice(((2 * S, S), (5 * S, 2 * S), (3 * S, S // 2)))
         r["pongs_before_silence"] = rng.choice((0, 1, 2))
     elif rng.random() < 0.3 and mode not in ("refused", "rejected"):
@@ -111,7 +127,7 @@ def gen(rng):
         while (sec.get("cb") is not None and sec.get("cb") == first.get("cb")) or \
                 (sec["mode"] == "close_badutf8" and first["mode"] == "utf8") or (first["mode"] == "close_badutf8" and sec["mode"] == "utf8"):
             sec = gen_run(rng, allow_async=False)
-        if sec["mode"] == "ping_timeout":
+        if sec["mode"] in ("ping_timeout", "ping_timeout_midframe") or sec.get("close_reply_delay"):
             first["interval"], first["ptimeout"] = sec["interval"], sec["ptimeout"]
             if first["mode"] in ("refused", "rejected"):
                 first["mode"] = "eof"
@@ -120,7 +136,7 @@ def gen(rng):
             sec.pop("ptimeout", None)
             if first.get("interval"):
                 sec["interval"], sec["ptimeout"] = first["interval"], first.get("ptimeout")
-        if first["mode"] == "ping_timeout" and sec["mode"] != "ping_timeout":
+        if first["mode"] in ("ping_timeout", "ping_timeout_midframe") and sec["mode"] not in ("ping_timeout", "ping_timeout_midframe"):
             sec["interval"], sec["ptimeout"] = first["interval"], first["ptimeout"]
         sc["second"] = sec
     return sc
@@ -183,16 +199,23 @@ def expand(item, seed):
                             r["cb"] = cb
                             if cb == "on_pong":
                                 r["history"] = REF_HISTORY + [{"t": 2 * S, "frames": [{"fin": 1, "op": 10, "hex": ""}]}]
-                        if mode == "close_body":
+                        if mode in ("close_body", "close_reset"):
                             r["code"], r["reason"] = 1001, "going"
-                        if mode == "ping_timeout":
+                        if mode == "cb_close" and cb in ("on_message", "on_data") and ping:
+                            r["interval"], r["ptimeout"] = 2 * S, S // 2
+                            r["history"] = [{"t": 4 * S + S // 16, "frames": [{"fin": 1, "op": 1, "hex": "6e657773"}]}]
+                            r["end_t"] = 12 * S
+                            r["pong_delay"], r["close_reply_delay"] = S // 8, S
+                        elif mode == "ping_timeout_midframe":
+                            r["interval"], r["ptimeout"], r["pongs_before_silence"], r["partial"] = 2 * S, S, 1, "8105"
+                        elif mode == "ping_timeout":
                             r["interval"], r["ptimeout"], r["pongs_before_silence"] = 2 * S, S, 1
-                        elif ping and mode not in ("refused", "rejected"):
+                        elif ping and mode not in ("refused", "rejected") and not r.get("interval"):
                             r["interval"], r["ptimeout"] = 2 * S, S
                         if mode == "thread_close":
                             r["close_t"] = S + S // 2
                         if as_second:
-                            if mode == "thread_close":
+                            if mode in ("thread_close", "ping_timeout_midframe"):
                                 continue
                             f0 = {"mode": "eof", "history": REF_HISTORY, "end_t": 3 * S}
                             if r.get("interval"):
@@ -248,14 +271,25 @@ def _conn_for(r, cbs):
         runopt["ping_interval"] = int(r["interval"])
         if r.get("ptimeout"):
             runopt["ping_timeout"] = int(r["ptimeout"])
-    if mode == "close_body":
+    if r.get("pong_delay") is not None:
+        spec["on_ping"] = {"mode": "pong", "delay": int(r["pong_delay"])}
+    if r.get("close_reply_delay") is not None:
+        if not 0 <= int(r["close_reply_delay"]) <= 2 * S + S // 2:
+            raise InvalidScenario("close reply delay must stay below the 3 s the library waits for it")
+        spec["on_close"] = {"mode": "reply", "delay": int(r["close_reply_delay"])}
+    if mode in ("close_body", "close_reset"):
         code = int(r.get("code", 1000))
         reason = r.get("reason", "")
         if R.close_code_class(code) != "accept" or len(reason.encode()) > 100:
             raise InvalidScenario("close code/reason")
-        script.append({"t": end_t, "hex": R.encode_frame(1, 8, code.to_bytes(2, "big") + reason.encode()).hex()})
+        it = {"t": end_t, "hex": R.encode_frame(1, 8, code.to_bytes(2, "big") + reason.encode()).hex()}
+        if mode == "close_reset":
+            # the server sends its close frame and resets the connection at once: the client's reply cannot be written
+            it["client_send_fail"] = "ECONNRESET"
+            it["end"] = "reset"
+        script.append(it)
         exp["close_args"] = (("i", code), ("s", reason))
-        exp["ret"] = False
+        exp["ret"] = False if mode == "close_body" else None
     elif mode == "close_badutf8":
         # UTF-8 validation switched off (documented run_forever option): the server's close reason is not valid UTF-8.
         # What 'reason' on_close then gets is not pinned down; that on_close fires once, last, with the code, and that
@@ -277,13 +311,19 @@ def _conn_for(r, cbs):
     elif mode == "utf8":
         script.append({"t": end_t, "hex": R.encode_frame(1, 1, b"\xff\xfe").hex()})
         exp["ret"] = True
-    elif mode == "ping_timeout":
+    elif mode in ("ping_timeout", "ping_timeout_midframe"):
         if not r.get("interval") or not r.get("ptimeout"):
             raise InvalidScenario("ping timeout needs interval and timeout")
         spec["on_ping"] = {"mode": "pong", "stop_after": int(r.get("pongs_before_silence", 0)), "delay": 1}
         exp["ret"] = True
         n = int(r.get("pongs_before_silence", 0))
         exp["end_event_t"] = int(r["interval"]) * (n + 2) + 2 * int(r["ptimeout"])
+        if mode == "ping_timeout_midframe":
+            # the server falls silent in the middle of a frame: the first bytes of a frame arrive, the rest never does
+            part = bytes.fromhex(r.get("partial", "8105"))
+            if not part or R.decode_one(part, 0) is not None or (part[0] & 0x70) or (len(part) > 1 and part[1] & 0x80):
+                raise InvalidScenario("partial must be a proper prefix of a legal frame")
+            script.append({"t": max(last_t, int(r["interval"]) * (n + 1) - S // 4), "hex": part.hex()})
     elif mode == "refused":
         spec = {"outcome": "refused"}
         exp["ret"] = True
@@ -342,10 +382,12 @@ def run(sc, choices=None):
         if second is not None:
             if second["mode"] == "thread_close":
                 raise InvalidScenario("second run is never closed asynchronously")
+            if second["mode"] == "ping_timeout_midframe":
+                raise InvalidScenario("the mid-frame silence is judged as a first run only")
             spec2, over2, ro2, _c2, exp2 = _conn_for(second, cbs)
             if {k_: v_ for k_, v_ in ro2.items() if k_ != "skip_utf8"} != {k_: v_ for k_, v_ in ro1.items() if k_ not in ("tls", "reconnect", "skip_utf8")}:
                 # run options are fixed per app driver call: use the first run's
-                if second["mode"] == "ping_timeout":
+                if second["mode"] in ("ping_timeout", "ping_timeout_midframe") or second.get("close_reply_delay"):
                     raise InvalidScenario("ping settings differ between runs")
             if over2 and over1 and set(over2) & set(over1):
                 raise InvalidScenario("same callback used to end both runs")
